@@ -218,6 +218,10 @@ FUNCTIONS = [
         ensures RET ==> (OLD(POS(cursor)) < LEN(cursor) && POS(cursor) == OLD(POS(cursor)) + 1)
         ensures !RET ==> POS(cursor) == OLD(POS(cursor))
         ensures (RET && cs == Pistache_CaseSensitivity_Sensitive) ==> BYTE(cursor, OLD(POS(cursor))) == c
+        # exact, in both modes: a match iff a byte is left and it equals c (up to ASCII case when insensitive)
+        ensures (RET && cs != Pistache_CaseSensitivity_Sensitive) ==> (char)vs_tolower((unsigned char)BYTE(cursor, OLD(POS(cursor)))) == (char)vs_tolower((unsigned char)c)
+        ensures (!RET && POS(cursor) < LEN(cursor) && cs == Pistache_CaseSensitivity_Sensitive) ==> BYTE(cursor, POS(cursor)) != c
+        ensures (!RET && POS(cursor) < LEN(cursor) && cs != Pistache_CaseSensitivity_Sensitive) ==> (char)vs_tolower((unsigned char)BYTE(cursor, POS(cursor))) != (char)vs_tolower((unsigned char)c)
         ensures IFF(g_hit_end, OLD(g_hit_end) || OLD(POS(cursor)) == LEN(cursor))'''},
     {'q': 'Pistache::match_until', 'sig': 'bool (char,', 'c': 'Pistache_match_until_c', 'contract': '''
         requires CUR_PRE(cursor)
